@@ -49,8 +49,9 @@ func runHist(t *testing.T, prof string) {
 		e.Start()
 		rt.Repeat(map[string]func(*rapid.T){
 			"step": func(rt *rapid.T) { e.Apply(e.GenOp(rt)) },
-			"":     func(rt *rapid.T) { e.CheckAll() },
+			"":     func(rt *rapid.T) { e.MaybeCheck() },
 		})
+		e.CheckAll()
 		e.Finish()
 	})
 }
@@ -76,8 +77,9 @@ func RunHCase(c *HCase, st *Stats) (v *Violation) {
 	e.CheckAll()
 	for _, op := range c.Ops {
 		e.Apply(op)
-		e.CheckAll()
+		e.MaybeCheck()
 	}
+	e.CheckAll()
 	e.Finish()
 	return nil
 }
